@@ -208,18 +208,34 @@ def podOnDomain (dom : String → List (Option String)) (p : Pod) (cands : List 
     some s!"{tagFor p cands (fun k => (dom k).contains none)}pod {p.name}: no required node-affinity term is guaranteed by the NodeClaim"
   else none
 
-/-- daemonsets expected on a node of pool `p` launched as `it` -/
-def dsOnClaim (p : Pool) (it : IT) (d : DaemonSet) : Bool :=
+/-- daemonsets expected on a node of pool `p` launched as `it` with offering `o` -/
+def dsOnLaunch (p : Pool) (it : IT) (o : Offering) (d : DaemonSet) : Bool :=
   (untolerated d.tolerations p.taints).isNone &&
   d.nodeSelector.all (fun (k, v) =>
     let k := normalizeKey k
     if k == "node.kubernetes.io/instance-type" then v == it.name
     else if k == "kubernetes.io/arch" then v == it.arch
     else if k == "kubernetes.io/os" then it.os.contains v
-    else if k == "topology.kubernetes.io/zone" then it.offerings.any (fun o => o.available && o.zone == v)
-    else if k == Karp.Gen.Labels.capacityTypeLabelKey then it.offerings.any (fun o => o.available && o.ct == v)
+    else if k == "topology.kubernetes.io/zone" then o.zone == v
+    else if k == Karp.Gen.Labels.capacityTypeLabelKey then o.ct == v
     else if k == Karp.Gen.Labels.nodePoolLabelKey then v == p.name
     else p.labels.lookup k == some v)
+
+/-- does the launch `(it, o)` hold the pods plus the daemons expected there?  `none` = yes -/
+def launchFits (s : Scenario) (p : Pool) (pods : List Pod) (it : IT) (o : Offering) : Option String :=
+  let ds := s.daemonsets.filter (dsOnLaunch p it o)
+  let dCPU := ds.foldl (fun a d => a + d.cpu) 0
+  let dMem := ds.foldl (fun a d => a + d.mem) 0
+  if sumCPU pods + dCPU > it.allocCPU then
+    some s!"instance type {it.name}: cpu {sumCPU pods}m + daemons {dCPU}m exceed allocatable {it.allocCPU}m"
+  else if sumMem pods + dMem > it.mem then
+    some s!"instance type {it.name}: memory {sumMem pods}Mi + daemons {dMem}Mi exceed allocatable {it.mem}Mi"
+  else if ((pods.length + ds.length : Nat) : Int) > it.pods then
+    some s!"instance type {it.name}: {pods.length} pods + {ds.length} daemons exceed pod capacity {it.pods}"
+  else
+  match firstPortConflict (pods.map (·.name)) (pods.flatMap podPorts ++ ds.flatMap (fun d => d.hostPorts.map (fun hp => ("daemonset " ++ d.name, hp)))) with
+  | some (a, b) => some s!"instance type {it.name}: host port conflict between {a} and {b}"
+  | none => none
 
 def claimOK (s : Scenario) (c : Claim) (cands : List String) : Option String :=
   match s.pool? c.pool with
@@ -240,19 +256,9 @@ def claimOK (s : Scenario) (c : Claim) (cands : List String) : Option String :=
       | some it =>
         let ofs := it.offerings.filter (fun o => o.available && offeringCompatible c.reqs o)
         if ofs.isEmpty then some s!"instance type {itn}: no available offering is compatible with the claim's requirements" else
-        let ds := s.daemonsets.filter (dsOnClaim p it)
-        let dCPU := ds.foldl (fun a d => a + d.cpu) 0
-        let dMem := ds.foldl (fun a d => a + d.mem) 0
-        if sumCPU pods + dCPU > it.allocCPU then
-          some s!"instance type {itn}: cpu {sumCPU pods}m + daemons {dCPU}m exceed allocatable {it.allocCPU}m"
-        else if sumMem pods + dMem > it.mem then
-          some s!"instance type {itn}: memory {sumMem pods}Mi + daemons {dMem}Mi exceed allocatable {it.mem}Mi"
-        else if ((pods.length + ds.length : Nat) : Int) > it.pods then
-          some s!"instance type {itn}: {pods.length} pods + {ds.length} daemons exceed pod capacity {it.pods}"
-        else
-        match firstPortConflict (pods.map (·.name)) (pods.flatMap podPorts ++ ds.flatMap (fun d => d.hostPorts.map (fun hp => ("daemonset " ++ d.name, hp)))) with
-        | some (a, b) => some s!"instance type {itn}: host port conflict between {a} and {b}"
-        | none =>
+        -- SOME compatible available offering must hold the pods plus the daemons expected on that launch
+        let fitsErrs := ofs.map (fun o => launchFits s p pods it o)
+        if fitsErrs.all (·.isSome) then fitsErrs.head!.map (fun w => w ++ " (for every compatible available offering)") else
           -- every labelling the launch may produce must satisfy every pod
           firstSome (ofs.map (fun o =>
             let dom := labelDomain p c it o cands
